@@ -426,6 +426,108 @@ example : (readFrom {} [103, 114, 101, 112]).Good ∧ (readFrom {} [103, 114, 10
     ∧ (readFrom {} [103, 114, 101, 112, 32, 45, 70]).Good := by
   refine ⟨?_, ?_, ?_⟩ <;> simp [RS.Good, RS.open_] <;> decide
 
+/-! ## xzdiff/xzcmp: the command line as `eval` reads it -/
+
+abbrev vCmp : Bytes := [99, 109, 112]
+
+/-- `$cmp` after the option loop of xzdiff: every option re-quoted by the script's site, then `cmp="$cmp --"`. -/
+def buildCmp : Bytes → List Bytes → Option Bytes
+  | c, [] => evalWordSrc cmpDashDashSrc (env0.set vCmp c)
+  | c, o :: os => (diffSite.value diffEscapeSrc ((env0.set vCmp c).set vOne o)).bind fun c' => buildCmp c' os
+
+theorem buildCmp_eq (c : Bytes) (opts : List Bytes) (hd : ∀ o ∈ opts, ∃ w, o = 45 :: w) :
+    buildCmp c opts = some (c ++ (opts.flatMap fun o => SP :: Q o) ++ [32, 45, 45]) := by
+  have hw : shWords cmpDashDashSrc = .ok [[.var vCmp, .lit [32, 45, 45]]] := by decide
+  induction opts generalizing c with
+  | nil => simp [buildCmp, evalWordSrc, hw, Word.subst, VarEnv.set]
+  | cons o os ih =>
+    obtain ⟨w, rfl⟩ := hd o (by simp)
+    have hos : ∀ x ∈ os, ∃ w, x = 45 :: w := fun x hx => hd x (by simp [hx])
+    have hv := xzdiff_option_value ((env0.set vCmp c).set vOne (45 :: w)) w (by simp [VarEnv.set])
+    simp only [buildCmp, hv, Option.bind_some, ih _ hos]
+    simp [VarEnv.set]
+
+/-- Reading a fixed tail (concrete bytes) after a Good state, by computation. -/
+macro "tail_tac" : tactic => `(tactic| (
+  intro st hg
+  obtain ⟨mode, done, segs, lit, name⟩ := st
+  obtain ⟨hopen, hsegs, hlit⟩ := hg
+  simp only [] at hsegs hlit
+  subst hsegs
+  rcases hopen with h | h <;> simp only [] at h <;> subst h
+  · have hl : lit = [] := hlit rfl
+    subst hl
+    simp [readFrom, step, stepUnq, stepDq, isOperator, isExpansion, isNameByte, isDigit, finish, RS.wordsDone, RS.endWord,
+      RS.curWord, RS.flushLit, RS.push, SP, TAB, NL, SQ, DQ, BSL, DOLLAR, BQ]
+  · simp [readFrom, step, stepUnq, stepDq, isOperator, isExpansion, isNameByte, isDigit, finish, RS.wordsDone, RS.endWord,
+      RS.curWord, RS.flushLit, RS.push, SP, TAB, NL, SQ, DQ, BSL, DOLLAR, BQ]))
+
+-- ` -- - "$FILE"`
+theorem cmp_tail_1 : ∀ st : RS, st.Good → finish (readFrom st [32, 45, 45, 32, 45, 32, 34, 36, 70, 73, 76, 69, 34])
+    = .ok (st.wordsDone ++ [[.lit [45, 45]], [.lit [45]], [.var [70, 73, 76, 69]]]) := by tail_tac
+theorem cmp_tail_2 : ∀ st : RS, st.Good → finish (readFrom st [32, 45, 45, 32, 45, 32, 45])
+    = .ok (st.wordsDone ++ [[.lit [45, 45]], [.lit [45]], [.lit [45]]]) := by tail_tac
+theorem cmp_tail_3 : ∀ st : RS, st.Good → finish (readFrom st [32, 45, 45, 32, 47, 100, 101, 118, 47, 102, 100, 47, 53, 32, 45])
+    = .ok (st.wordsDone ++ [[.lit [45, 45]], [.lit [47, 100, 101, 118, 47, 102, 100, 47, 53]], [.lit [45]]]) := by tail_tac
+theorem cmp_tail_4 : ∀ st : RS, st.Good → finish (readFrom st [32, 45, 45, 32, 45, 32, 34, 36, 116, 109, 112, 47, 36, 70, 34])
+    = .ok (st.wordsDone ++ [[.lit [45, 45]], [.lit [45]], [.var [116, 109, 112], .lit [47], .var [70]]]) := by tail_tac
+theorem cmp_tail_5 : ∀ st : RS, st.Good → finish (readFrom st [32, 45, 45, 32, 45, 32, 34, 36, 50, 34])
+    = .ok (st.wordsDone ++ [[.lit [45, 45]], [.lit [45]], [.var [50]]]) := by tail_tac
+theorem cmp_tail_6 : ∀ st : RS, st.Good → finish (readFrom st [32, 45, 45, 32, 34, 36, 49, 34, 32, 45])
+    = .ok (st.wordsDone ++ [[.lit [45, 45]], [.var [49]], [.lit [45]]]) := by tail_tac
+theorem cmp_tail_7 : ∀ st : RS, st.Good → finish (readFrom st [32, 45, 45, 32, 34, 36, 49, 34, 32, 34, 36, 50, 34])
+    = .ok (st.wordsDone ++ [[.lit [45, 45]], [.var [49]], [.var [50]]]) := by tail_tac
+
+
+/-- **cmp_eval_words** (xzdiff/xzcmp: no command from a name). Whatever options were given (arguments starting with `-`,
+    any bytes but NUL), each `eval "$cmp" …` of xzdiff is read by the shell as: the words of the base diff/cmp command,
+    exactly the given options as literal words, `--`, and then only `-`, `/dev/fd/5` or the opaque words `"$1"`, `"$2"`,
+    `"$FILE"`, `"$tmp/$F"` — file names never reach the shell grammar. -/
+theorem cmp_eval_words (c0 : Bytes) (hc0 : (readFrom {} c0).Good) (opts : List Bytes)
+    (hd : ∀ o ∈ opts, ∃ w, o = 45 :: w) (h0 : ∀ o ∈ opts, (0 : UInt8) ∉ o) (src : Bytes) (hsrc : src ∈ cmpEvalSrcs) :
+    ∃ cmp t tail, buildCmp c0 opts = some cmp ∧ evalArgs src (env0.set vCmp cmp) = some t ∧
+      shWords t = .ok ((readFrom {} c0).wordsDone ++ opts.map (fun o => [Seg.lit o]) ++ [[.lit [45, 45]]] ++ tail) ∧
+      tail ∈ [[[Seg.lit [45]], [.var [70, 73, 76, 69]]], [[.lit [45]], [.lit [45]]],
+              [[.lit [47, 100, 101, 118, 47, 102, 100, 47, 53]], [.lit [45]]],
+              [[.lit [45]], [.var [116, 109, 112], .lit [47], .var [70]]], [[.lit [45]], [.var [50]]],
+              [[.var [49]], [.lit [45]]], [[.var [49]], [.var [50]]]] := by
+  obtain ⟨g1, w1⟩ := read_quoted_list opts h0 _ hc0
+  have hb := buildCmp_eq c0 opts hd
+  simp only [cmpEvalSrcs, List.mem_cons, List.not_mem_nil, or_false] at hsrc
+  rcases hsrc with rfl | rfl | rfl | rfl | rfl | rfl | rfl
+  · refine ⟨_, c0 ++ (opts.flatMap fun o => SP :: Q o) ++ [32, 45, 45, 32, 45, 32, 34, 36, 70, 73, 76, 69, 34], [[Seg.lit [45]], [.var [70, 73, 76, 69]]], hb, ?_, ?_, by simp⟩
+    · have hw : shWords [34, 36, 99, 109, 112, 34, 32, 45, 32, 39, 34, 36, 70, 73, 76, 69, 34, 39] = .ok [[.var vCmp], [.lit [45]], [.lit [34, 36, 70, 73, 76, 69, 34]]] := by decide
+      simp [evalArgs, joinSp, hw, Word.subst, VarEnv.set, SP]
+    · unfold shWords; rw [readFrom_append, readFrom_append, cmp_tail_1 _ g1, w1]; simp
+  · refine ⟨_, c0 ++ (opts.flatMap fun o => SP :: Q o) ++ [32, 45, 45, 32, 45, 32, 45], [[Seg.lit [45]], [.lit [45]]], hb, ?_, ?_, by simp⟩
+    · have hw : shWords [34, 36, 99, 109, 112, 34, 32, 45, 32, 45] = .ok [[.var vCmp], [.lit [45]], [.lit [45]]] := by decide
+      simp [evalArgs, joinSp, hw, Word.subst, VarEnv.set, SP]
+    · unfold shWords; rw [readFrom_append, readFrom_append, cmp_tail_2 _ g1, w1]; simp
+  · refine ⟨_, c0 ++ (opts.flatMap fun o => SP :: Q o) ++ [32, 45, 45, 32, 47, 100, 101, 118, 47, 102, 100, 47, 53, 32, 45], [[Seg.lit [47, 100, 101, 118, 47, 102, 100, 47, 53]], [.lit [45]]], hb, ?_, ?_, by simp⟩
+    · have hw : shWords [34, 36, 99, 109, 112, 34, 32, 47, 100, 101, 118, 47, 102, 100, 47, 53, 32, 45] = .ok [[.var vCmp], [.lit [47, 100, 101, 118, 47, 102, 100, 47, 53]], [.lit [45]]] := by decide
+      simp [evalArgs, joinSp, hw, Word.subst, VarEnv.set, SP]
+    · unfold shWords; rw [readFrom_append, readFrom_append, cmp_tail_3 _ g1, w1]; simp
+  · refine ⟨_, c0 ++ (opts.flatMap fun o => SP :: Q o) ++ [32, 45, 45, 32, 45, 32, 34, 36, 116, 109, 112, 47, 36, 70, 34], [[Seg.lit [45]], [.var [116, 109, 112], .lit [47], .var [70]]], hb, ?_, ?_, by simp⟩
+    · have hw : shWords [34, 36, 99, 109, 112, 34, 32, 45, 32, 39, 34, 36, 116, 109, 112, 47, 36, 70, 34, 39] = .ok [[.var vCmp], [.lit [45]], [.lit [34, 36, 116, 109, 112, 47, 36, 70, 34]]] := by decide
+      simp [evalArgs, joinSp, hw, Word.subst, VarEnv.set, SP]
+    · unfold shWords; rw [readFrom_append, readFrom_append, cmp_tail_4 _ g1, w1]; simp
+  · refine ⟨_, c0 ++ (opts.flatMap fun o => SP :: Q o) ++ [32, 45, 45, 32, 45, 32, 34, 36, 50, 34], [[Seg.lit [45]], [.var [50]]], hb, ?_, ?_, by simp⟩
+    · have hw : shWords [34, 36, 99, 109, 112, 34, 32, 45, 32, 39, 34, 36, 50, 34, 39] = .ok [[.var vCmp], [.lit [45]], [.lit [34, 36, 50, 34]]] := by decide
+      simp [evalArgs, joinSp, hw, Word.subst, VarEnv.set, SP]
+    · unfold shWords; rw [readFrom_append, readFrom_append, cmp_tail_5 _ g1, w1]; simp
+  · refine ⟨_, c0 ++ (opts.flatMap fun o => SP :: Q o) ++ [32, 45, 45, 32, 34, 36, 49, 34, 32, 45], [[Seg.var [49]], [.lit [45]]], hb, ?_, ?_, by simp⟩
+    · have hw : shWords [34, 36, 99, 109, 112, 34, 32, 39, 34, 36, 49, 34, 39, 32, 45] = .ok [[.var vCmp], [.lit [34, 36, 49, 34]], [.lit [45]]] := by decide
+      simp [evalArgs, joinSp, hw, Word.subst, VarEnv.set, SP]
+    · unfold shWords; rw [readFrom_append, readFrom_append, cmp_tail_6 _ g1, w1]; simp
+  · refine ⟨_, c0 ++ (opts.flatMap fun o => SP :: Q o) ++ [32, 45, 45, 32, 34, 36, 49, 34, 32, 34, 36, 50, 34], [[Seg.var [49]], [.var [50]]], hb, ?_, ?_, by simp⟩
+    · have hw : shWords [34, 36, 99, 109, 112, 34, 32, 39, 34, 36, 49, 34, 39, 32, 39, 34, 36, 50, 34, 39] = .ok [[.var vCmp], [.lit [34, 36, 49, 34]], [.lit [34, 36, 50, 34]]] := by decide
+      simp [evalArgs, joinSp, hw, Word.subst, VarEnv.set, SP]
+    · unfold shWords; rw [readFrom_append, readFrom_append, cmp_tail_7 _ g1, w1]; simp
+
+example : (readFrom {} [100, 105, 102, 102]).Good ∧ (readFrom {} [99, 109, 112]).Good := by
+  refine ⟨?_, ?_⟩ <;> simp [RS.Good, RS.open_] <;> decide
+
+
 /-! ## the sed fallback that labels output lines with the file name -/
 
 def labelSrc : LabelSrc := ⟨labelSuffixSrc, labelGuardPats, labelPrintfFmt, labelSedSrc, labelScriptSrc⟩
